@@ -68,6 +68,10 @@ func keyOfAny(k any) string {
 		return fmt.Sprintf("%s\x00%s\x00%T\x00%012d", p, types.ObjectString(k, nil), k, int(k.Pos()))
 	case *ast.Ident:
 		return fmt.Sprintf("%012d\x00%s", int(k.Pos()), k.Name)
+	case ast.Node:
+		// syntax of the package being analysed: positions are local to its
+		// own FileSet and deterministic
+		return fmt.Sprintf("%012d\x00%012d\x00%T", int(k.Pos()), int(k.End()), k)
 	case *types.TypeParam:
 		return fmt.Sprintf("%012d\x00%s", int(k.Obj().Pos()), k.Obj().Name())
 	case reflect.Type:
